@@ -1,6 +1,6 @@
 //! C06 — linear-combination openings prove exactly the stated combinations.
 
-use super::c02::{delta, expect_reject};
+use super::c02::{delta, expect_reject, false_value};
 use super::common::*;
 use crate::engine::{CaseCtx, Failure, PropUnit, PropertySpec, Unit};
 use crate::model::{scn_with, Scn};
@@ -219,7 +219,15 @@ pub fn check_trait<S: Scheme>(c: &Case, ctx: &mut CaseCtx) -> Result<(), Failure
     match c.mode {
         1 => {
             let mut e = evals.clone();
-            *e.get_mut(&(format!("lc{qk}"), qz.clone())).unwrap() += delta::<S::F>(sel >> 8);
+            // pool: the other claimed LC values, and this value with the LC's constant part removed,
+            // added twice, or negated (the quantities a verifier's constant bookkeeping can get wrong)
+            let truth = evals[&(format!("lc{qk}"), qz.clone())];
+            let cst: S::F = b.terms[qk].iter().filter(|t| t.1.is_none()).map(|t| t.0).sum();
+            let mut pool: Vec<S::F> = evals.values().cloned().collect();
+            pool.extend([truth - cst, truth + cst, truth - cst - cst]);
+            let (fv, how) = false_value::<S::F>(truth, &pool, sel >> 8);
+            ctx.label(how);
+            *e.get_mut(&(format!("lc{qk}"), qz.clone())).unwrap() = fv;
             ctx.label("perturb:claimed_value");
             let r = check_comb::<S>(&sess, &b.lcs, sess.verifier_comms(), &b.qs, &e, &proof);
             expect_reject(ctx, P, S::NAME, "check_combinations", "value", &r, || format!("claimed value of lc{qk} changed"))
@@ -297,6 +305,70 @@ pub fn check_trait<S: Scheme>(c: &Case, ctx: &mut CaseCtx) -> Result<(), Failure
         }
         _ => Ok(()),
     }
+}
+
+/// C02's view of combination openings: honest commitments, the honest `open_combinations` proof, and a
+/// sweep of false claimed values at every queried (combination, point) - structured candidates (the
+/// truth +-1, + random, 0, negated, doubled, with the LC's constant part removed / added again / removed
+/// twice, and the values claimed elsewhere in the same statement). None may be accepted, whether or not
+/// the verifier accepts the honest transcript (that is C01/C06's business).
+pub fn check_false_claims<S: Scheme>(c: &Case, ctx: &mut CaseCtx, prop: &str) -> Result<(), Failure> {
+    let tier = current_tier();
+    let mut scn = c.scn.clone();
+    for p in scn.polys.iter_mut() {
+        p.bound = 0;
+    }
+    let Ok(sess) = Session::<S>::build(&scn, tier) else {
+        ctx.label("build_failed(C01)");
+        return Ok(());
+    };
+    let b = build_lcs::<S>(&sess, c, false);
+    let mut evals: Evaluations<S::Pt, S::F> = BTreeMap::new();
+    for (k, z) in &b.queried {
+        evals.insert((format!("lc{k}"), z.clone()), lc_value::<S>(&sess, &b.terms[*k], z));
+    }
+    let Out::Ok(proof) = open_comb::<S>(&sess, &b.lcs, &b.qs) else {
+        ctx.label("open_combinations_failed(C06)");
+        return Ok(());
+    };
+    let honest = check_comb::<S>(&sess, &b.lcs, sess.verifier_comms(), &b.qs, &evals, &proof);
+    ctx.label(if accepted(&honest) { "honest_accepted" } else { "honest_not_accepted(C06)" });
+    let has_one = b.terms.iter().any(|t| t.iter().any(|x| x.1.is_none()));
+    let multi_point = (0..b.lcs.len()).any(|k| b.queried.iter().filter(|q| q.0 == k).count() >= 2);
+    ctx.label_if(has_one, "constant_term");
+    ctx.label_if(multi_point, "combination_queried_at_several_points");
+    ctx.nontrivial_if(has_one || multi_point || b.queried.len() >= 2);
+    ctx.derived = Some(json!({"scheme": S::NAME, "queries": b.qs.iter().map(|(l, (pl, _))| format!("{l}@{pl}")).collect::<Vec<_>>()}));
+    let all: Vec<S::F> = evals.values().cloned().collect();
+    for (n, (qk, qz)) in b.queried.iter().enumerate().take(6) {
+        let key = (format!("lc{qk}"), qz.clone());
+        let truth = evals[&key];
+        let cst: S::F = b.terms[*qk].iter().filter(|t| t.1.is_none()).map(|t| t.0).sum();
+        let mut cands: Vec<(S::F, &str)> = vec![
+            (truth + S::F::one(), "+1"),
+            (truth - S::F::one(), "-1"),
+            (truth + delta::<S::F>(c.sel.wrapping_add(n as u64) | 2), "+random"),
+            (S::F::zero(), ":= 0"),
+            (-truth, "negated"),
+            (truth + truth, "doubled"),
+            (truth - cst, "constant part removed"),
+            (truth + cst, "constant part added again"),
+            (truth - cst - cst, "constant part removed twice"),
+        ];
+        cands.extend(all.iter().map(|v| (*v, "value claimed elsewhere")));
+        let mut seen: Vec<S::F> = vec![truth];
+        for (fv, how) in cands {
+            if seen.contains(&fv) {
+                continue;
+            }
+            seen.push(fv);
+            let mut e = evals.clone();
+            e.insert(key.clone(), fv);
+            let r = check_comb::<S>(&sess, &b.lcs, sess.verifier_comms(), &b.qs, &e, &proof);
+            expect_reject(ctx, prop, S::NAME, "check_combinations", "value", &r, || format!("claimed value of lc{qk} at query #{n}: {how}"))?;
+        }
+    }
+    Ok(())
 }
 
 /// Degree-bound policy of the schemes that enforce bounds.
